@@ -12,7 +12,8 @@
  *                 split a message over several records at arbitrary points (TLS fragmentation),
  *                 coalesce the messages of two records, byte-mutate one message body (lengths
  *                 re-computed 3/4 of the time), grow / shrink a body, overwrite a 1/2/3-byte field
- *                 inside a body with a boundary value of the remaining length,
+ *                 inside a body with a boundary value of the remaining length, grow (padding) / shrink one length-prefixed
+ *                 vector element with all enclosing vector, handshake and record lengths kept consistent,
  *                 DTLS message_seq / fragment_offset / fragment_length edits (incl. values beyond
  *                 the record and the message) and re-fragmentation into 2-4 fragments (in order,
  *                 shuffled, overlapping, duplicated)
@@ -93,11 +94,13 @@ static int m_find_lenfields(const uint8_t *b, int n, mlenf_t *out, int max)
     if (n <= 0 || n > M_CAP) return 0;
     memset(bound, 0, (size_t) n + 4); bound[n] = 1;
     for (int p = n - 1; p >= 0 && cnt < max; p--) {
-        for (int w = 1; w <= 3; w++) {
+        for (int w = 3; w >= 1; w--) {
             if (p + w > n) continue;
             int v = 0; for (int i = 0; i < w; i++) v = (v << 8) | b[p + i];
             int e = p + w + v;
             if (e <= n && bound[e] && (v > 0 || w == 2)) {
+                /* "00 LL LL" read at p+1 as a 2-byte and at p as a 3-byte length is ONE field: keep the wider reading */
+                if (cnt > 0 && out[cnt - 1].p > p && out[cnt - 1].p + out[cnt - 1].w == p + w && out[cnt - 1].v == v) cnt--;
                 out[cnt].p = p; out[cnt].w = w; out[cnt].v = v; cnt++;
                 bound[p] = 1; if (p >= 2) bound[p - 2] = 1;     /* the item may start with a 2-byte type before its length */
                 break;
@@ -143,6 +146,7 @@ static int m_hs_edit(const uint8_t *pl, int pn, int ri, int dtls, mrng_t *g, siz
 #define TPUT(p, n) do { if ((n) > 0 && nb + (n) <= M_CAP) { memcpy(m_tmp + nb, (p), (n)); nb += (n); } } while (0)
     int op = (int) mb(g, dtls ? 19 : 15);
     if (op >= (dtls ? 16 : 12)) op = 7;          /* length-field lies get a larger share */
+    if (mb(g, 7) == 0) op = 100;                  /* consistent grow / shrink of one vector element */
     int multi = 0;                                /* the op emits records itself */
     switch (op) {
     case 0: /* lying handshake length */
@@ -213,6 +217,32 @@ static int m_hs_edit(const uint8_t *pl, int pn, int ri, int dtls, mrng_t *g, siz
         mmsg_t X = m_m[mb(g, m_nm)]; memcpy(m_m, sv, sizeof(mmsg_t) * nsv); m_nm = nsv;
         int at = mb(g, 2) ? M->off : M->off + hh + M->blen;
         TPUT(body, at); TPUT(ob + X.off, X.hh + X.blen); TPUT(body + at, bl - at); break; }
+    case 100: { /* grow (padding) or shrink ONE length-prefixed vector element by k bytes and keep every enclosing vector length, the
+                   handshake length, the DTLS fragment length and (below) the record length consistent */
+        static mlenf_t lf[1024]; const uint8_t *mbdy = body + M->off + hh;
+        int nl = m_find_lenfields(mbdy, M->blen, lf, 1024);
+        if (nl <= 0) return 0;
+        /* the scan runs right to left, so the outermost vectors (certificate_list, its entries, extension blocks) are the LAST
+           candidates: half of the time pick among those, otherwise anywhere (DER long-form lengths inside certificates qualify too) */
+        mlenf_t f = lf[mb(g, 2) ? nl - 1 - (int) mb(g, nl < 4 ? nl : 4) : (int) mb(g, nl)]; int fend = f.p + f.w + f.v;
+        int k = mb(g, 8) ? 1 + (int) mb(g, 8) : 1 + (int) mb(g, 256), grow = (int) mb(g, 4) != 0;
+        if (!grow) { if (f.v == 0) return 0; if (k > f.v) k = f.v; k = -k; }
+        if (M->blen + k > 65535 + 64 || nb + bl + k + 16 > M_CAP) return 0;
+        TPUT(body, M->off + hh);
+        int mstart = nb;
+        if (grow) { TPUT(mbdy, fend); for (int i = 0; i < k && nb < M_CAP; i++) m_tmp[nb++] = (uint8_t) (mb(g, 3) ? 0 : mr(g)); TPUT(mbdy + fend, M->blen - fend); }
+        else { TPUT(mbdy, fend + k); TPUT(mbdy + fend, M->blen - fend); }
+        for (int i = 0; i < nl; i++) {          /* f itself and everything that encloses it */
+            mlenf_t *e = &lf[i];
+            if (e->p > f.p || e->p + e->w + e->v < fend || (e->p != f.p && e->p + e->w > f.p)) continue;
+            int v = e->v + k; uint8_t *q = m_tmp + mstart + e->p;
+            if (v < 0 || (e->w == 1 && v > 0xff) || (e->w == 2 && v > 0xffff)) continue;
+            if (e->w == 1) q[0] = v; else if (e->w == 2) { q[0] = v >> 8; q[1] = v; } else m_set24(q, v);
+        }
+        m_set24(m_tmp + M->off + 1, M->dlen + k);
+        if (dtls) m_set24(m_tmp + M->off + 9, M->blen + k);
+        TPUT(body + M->off + hh + M->blen, bl - (M->off + hh + M->blen));
+        break; }
     case 11: { /* truncate the record inside the message, message header untouched */
         int keepn = M->off + (int) mb(g, hh + M->blen); TPUT(body, keepn); break; }
     case 12: { /* DTLS message_seq */
